@@ -107,6 +107,90 @@ fn fold_until(init: &BTreeMap<String, i32>, ops: &[(u64, MapEv)], until: u64) ->
 }
 
 /// The set of states (Some(v) / None) that `key` had during `[from, to]`.
+/// Ordering of the map operations a remote read on one lane: per key the values must follow the lane's own
+/// order, an update must not arrive after a clear that came after it, and every clear frame must stand for a
+/// clear the lane performed (before the frame was read) after everything already received. In the lenient
+/// pass, frames read while a sync request of this remote was unanswered (possible sync events, whose value
+/// is the lane's state when the sync was handled) do not raise the floors; an older clear or value that
+/// arrives after such a frame is reported as `C02.sync_overtook`.
+fn map_order_check(
+    peer: u32,
+    lane: &str,
+    frames: &[&Frame],
+    ops: &[(u64, MapEv)],
+    clears: &[i64],
+    vindex: &HashMap<i32, (usize, u64, String)>,
+    sync_reqs: &[&&Sent],
+    lenient: bool,
+) -> Vec<Violation> {
+    let mut out = vec![];
+    let mut synced_no = 0usize;
+    let mut last_idx_per_key: HashMap<String, usize> = HashMap::new();
+    let mut last_idx_per_key_live: HashMap<String, usize> = HashMap::new();
+    let mut seen_all = -1i64;
+    let mut seen_live = -1i64;
+    let mut clear_floor = -1i64;
+    for f in frames.iter() {
+        match &f.kind {
+            FrameKind::Synced => synced_no += 1,
+            FrameKind::Event(b) => {
+                let in_window = sync_reqs.get(synced_no).map(|r| r.start <= f.step).unwrap_or(false);
+                match parse_map_event(lane, b) {
+                    Some(MapEv::Update(k, v)) => {
+                        if let Some((i, _, tk)) = vindex.get(&v) {
+                            if *tk != k {
+                                continue;
+                            }
+                            let i = *i;
+                            if let Some(li) = last_idx_per_key.get(&k) {
+                                if i < *li {
+                                    let live_ok = last_idx_per_key_live.get(&k).map(|l| i >= *l).unwrap_or(true);
+                                    if lenient && live_ok {
+                                        out.push(Violation::new("C02", "C02.sync_overtook", "perkey", format!("peer {peer} lane {lane}: key {k} value {v} (op {i}) received after op {li}, which was read while a sync of this remote was in progress (a sync event that overtook an older queued live event)")));
+                                    } else {
+                                        out.push(Violation::new("C02", "C02.perkey", "", format!("peer {peer} lane {lane}: key {k} value {v} (op {i}) received after op {li}")));
+                                    }
+                                }
+                            }
+                            let e = last_idx_per_key.entry(k.clone()).or_insert(i);
+                            *e = (*e).max(i);
+                            if !in_window {
+                                let e = last_idx_per_key_live.entry(k.clone()).or_insert(i);
+                                *e = (*e).max(i);
+                                seen_live = seen_live.max(i as i64);
+                            }
+                            if (i as i64) < clear_floor {
+                                out.push(Violation::new("C02", "C02.clear", "", format!("peer {peer} lane {lane}: update {k}->{v} (lane operation #{i}) received after a clear that was lane operation #{clear_floor}")));
+                            }
+                            seen_all = seen_all.max(i as i64);
+                        }
+                    }
+                    Some(MapEv::Clear) => {
+                        // Earliest lane clear this frame can stand for: one the lane performed before the frame
+                        // was read and after everything already received.
+                        let happened = |c: &&i64| ops[**c as usize].0 < f.step;
+                        let base = if lenient { seen_live } else { seen_all };
+                        match clears.iter().filter(happened).find(|c| **c > base.max(clear_floor)).copied() {
+                            Some(c) => {
+                                if c < seen_all {
+                                    out.push(Violation::new("C02", "C02.sync_overtook", "clear", format!("peer {peer} lane {lane}: the clear read at step {} is lane operation #{c}, older than a value already read while a sync of this remote was in progress (a sync event overtook the queued clear)", f.step)));
+                                }
+                                clear_floor = c;
+                                seen_all = seen_all.max(c);
+                                seen_live = seen_live.max(c);
+                            }
+                            None => out.push(Violation::new("C02", "C02.invented", "clear", format!("peer {peer} lane {lane}: clear at step {} that the lane never performed after what was already received", f.step))),
+                        }
+                    }
+                    _ => {}
+                }
+            }
+            _ => {}
+        }
+    }
+    out
+}
+
 fn key_states(init: &BTreeMap<String, i32>, ops: &[(u64, MapEv)], key: &str, from: u64, to: u64) -> BTreeSet<Option<i32>> {
     let mut cur = init.get(key).copied();
     let mut out = BTreeSet::new();
@@ -539,9 +623,22 @@ pub fn check(rec: &RunRecord) -> Vec<Violation> {
             let mut synced_no = 0usize;
             let mut replica: BTreeMap<String, i32> = BTreeMap::new();
             let mut in_link = false;
-            let mut last_idx_per_key: HashMap<String, usize> = HashMap::new();
-            let mut max_truth_step_seen = -1i64;
-            let mut clear_floor = -1i64;
+            // Ordering of what the remote read (per key, and with respect to clears): strict pass first;
+            // if it finds something, a second pass in which frames read while a sync of this remote was
+            // unanswered (possible sync events) do not raise the floors. What only the strict pass
+            // objects to is attributed to the recorded finding C03.snapshot:key_stale.
+            {
+                let strict = map_order_check(*peer, lane, frames, &ops, &clears, &vindex, &sync_reqs, false);
+                if strict.is_empty() {
+                } else {
+                    let lenient = map_order_check(*peer, lane, frames, &ops, &clears, &vindex, &sync_reqs, true);
+                    if lenient.iter().all(|v| v.rule == "C02.sync_overtook") && !lenient.is_empty() {
+                        out.extend(lenient);
+                    } else {
+                        out.extend(strict);
+                    }
+                }
+            }
             let mut session_synced = false;
             let mut session_linked_step = 0u64;
             for f in frames.iter() {
@@ -567,17 +664,7 @@ pub fn check(rec: &RunRecord) -> Vec<Violation> {
                                         if *st >= f.step {
                                             out.push(Violation::new("C02", "C02.from_future", "", format!("peer {peer} lane {lane}: {k}->{v} read at {} before it happened ({st})", f.step)));
                                         }
-                                        if let Some(li) = last_idx_per_key.get(k) {
-                                            if i < li {
-                                                out.push(Violation::new("C02", "C02.perkey", "", format!("peer {peer} lane {lane}: key {k} value {v} (op {i}) received after op {li}")));
-                                            }
-                                        }
-                                        let e = last_idx_per_key.entry(k.clone()).or_insert(*i);
-                                        *e = (*e).max(*i);
-                                        if (*i as i64) < clear_floor {
-                                            out.push(Violation::new("C02", "C02.clear", "", format!("peer {peer} lane {lane}: update {k}->{v} (lane operation #{i}) received after a clear that was lane operation #{clear_floor}")));
-                                        }
-                                        max_truth_step_seen = max_truth_step_seen.max(*i as i64);
+                                        let _ = i;
                                     }
                                     _ => {
                                         // The initial (restored) map may be sent by a sync.
@@ -589,15 +676,6 @@ pub fn check(rec: &RunRecord) -> Vec<Violation> {
                                 },
                                 MapEv::Remove(_) => {}
                                 MapEv::Clear => {
-                                    // Earliest lane clear this frame can stand for.
-                                    let floor = clears.iter().find(|c| **c > max_truth_step_seen.max(clear_floor)).copied();
-                                    match floor {
-                                        Some(c) => {
-                                            clear_floor = c;
-                                            max_truth_step_seen = max_truth_step_seen.max(c);
-                                        }
-                                        None => out.push(Violation::new("C02", "C02.invented", "clear", format!("peer {peer} lane {lane}: clear at step {} that the lane never performed after what was already received", f.step))),
-                                    }
                                 }
                             }
                             apply(&mut replica, &ev);
